@@ -65,7 +65,7 @@ func TestSlicePatch(t *testing.T) {
 	if thorough() {
 		per = 6
 	}
-	for _, shape := range shapes(0, 3, 3) {
+	for _, shape := range tierShapes(0) {
 		a := randRef(rng, shape, -5, 5)
 		x := toT(a, false)
 		// At
@@ -134,8 +134,7 @@ func TestShapeOps(t *testing.T) {
 	r := newReporter("TestShapeOps")
 	defer r.done(t)
 	rng := rand.New(rand.NewSource(seed()))
-	mr, ms := maxRankSize()
-	all := shapes(0, mr, ms)
+	all := tierShapes(0)
 	for _, shape := range all {
 		a := randRef(rng, shape, -5, 5)
 		x := toT(a, false)
